@@ -388,7 +388,8 @@ def check_cuts(rep, tier, rng, prop, h, meta, lines, tags, pair, loss=False, bud
             for v in vecs:
                 tr = ",".join(f"{f}={n}" for f, n in sorted(v.items()) if n < size.get(f, 0)) or "-"
                 q.append(((i, b, tr), f"loss {i} {b} {tr}"))
-    qlines = [l for x in q for l in (x[1], f"d3cut {x[0][0]} {x[0][1]}")]
+    # the D3 classification is asked for the image itself: a tombstone that the power loss cut off masks nothing
+    qlines = [l for x in q for l in (x[1], f"d3cut {x[0][0]} {x[0][1]}" + (f" {x[0][2]}" if x[0][2] else ""))]
     i2, m2 = pair.ask_many(qlines)
     rep.cov["evaluations"] += len(q)
     problems = []
